@@ -281,7 +281,9 @@ class G:
         good = self.r.choice([("int", "+", "int"), ("int", "*", "float"), ("str", "+", "int"), ("int", "<", "int"), ("bool", "&&", "bool"), ("str", "==", "str")])
         return St("binary_op", ["o%d = %s %s %s" % (n, self.e(good[0]), good[1], self.e(good[2]))],
                   [("unsupported_operator", ["o%d = %s %s %s" % (n, self.e(lt), op, self.e(rt))], (0, 0), "%s %s %s" % (lt, op, rt)),
-                   ("unsupported_operator", ["o%d = %s %s %s" % (n, self.r.choice(["gl", "gp", "gm"]), self.r.choice(["+", "*", "<"]), self.e("int"))], (0, 0), "non-native operand")])
+                   ("unsupported_operator", ["o%d = %s %s %s" % (n, self.r.choice(["gl", "gp", "gm"]), self.r.choice(["+", "*", "<"]), self.e("int"))], (0, 0), "non-native operand"),
+                   # equality exists for scalars, lists and optionals of them; not for maps, objects, functions
+                   ("unsupported_operator", ["o%d = %s %s %s" % ((n,) + self.r.choice([("gm", "==", "gm"), ("gm", "!=", "gm"), ("gp", "==", "gp"), ("fi", "==", "fi"), ("[gm]", "==", "[gm]")]))], (0, 0), "equality of values that cannot be compared")])
 
     def t_unary(self):
         n = self.uid()
@@ -333,6 +335,39 @@ class G:
                    ("wrong_arg_type", mut(4, "const fy%d = fh%d([%s])" % (n, n, a)), (4, 4), "fixed-list parameter: one element too few"),
                    ("wrong_return", mut(2, "  return [%s, %s, %s]" % (a, b, extra)), (1, 3), "fixed-list result: one element too many")])
 
+    def t_index_write(self):
+        """`a[i] = v` / `a[i] op= v`: the target must be a list or map element of the value's type; a str has no element to replace"""
+        n = self.uid()
+        w, t2 = self.wrong("int")
+        base = ["iw%d: [int...] = [1, 2, 3]" % n, "is%d = \"abc\"" % n, "iw%d[0] = %s" % (n, self.e("int")), "iw%d[1] += 2" % n, "ic%d = is%d[0]" % (n, n)]
+
+        def mut(i, line):
+            m = list(base)
+            m[i] = line
+            return m
+        return St("index_write", base,
+                  [("index_non_indexable", mut(2, "is%d[0] = \"x\"" % n), (2, 2), "element of a str assigned"),
+                   ("index_non_indexable", mut(3, "is%d[0] += \"x\"" % n), (3, 3), "element of a str op-assigned"),
+                   ("index_non_indexable", mut(2, "gi[0] = 1"), (2, 2), "element of an int assigned"),
+                   ("wrong_reassign", mut(2, "iw%d[0] = %s" % (n, w)), (2, 2), "list element int <- %s" % t2),
+                   ("index_with_non_index", mut(2, "iw%d[%s] = 1" % (n, self.wrong("int")[0])), (2, 2), "write through a non-index")])
+
+    def t_obj_field(self):
+        """a field whose type is a class holds an INSTANCE: it has fields and methods but is not callable"""
+        n = self.uid()
+        base = ["class W%d {" % n, "  p: Pt", "  constructor(self) {", "    self.p = gp", "  }", "}",
+                "ww%d = W%d()" % (n, n), "wq%d = ww%d.p.getx()" % (n, n), "wr%d: int = ww%d.p.x" % (n, n)]
+
+        def mut(i, s):
+            m = list(base)
+            m[i] = s
+            return m
+        return St("object_field", base,
+                  [("call_non_callable", mut(7, "wq%d = ww%d.p()" % (n, n)), (7, 7), "instance-typed field called"),
+                   ("call_non_callable", mut(7, "wq%d = ww%d.p(1, \"a\")" % (n, n)), (7, 7), "instance-typed field called with constructor arguments"),
+                   ("unknown_method", mut(7, "wq%d = ww%d.p.nomethod%d()" % (n, n, n)), (7, 7), "method of the object in a field"),
+                   ("wrong_init", mut(8, "wr%d: str = ww%d.p.x" % (n, n)), (8, 8), "str <- int field of the object in a field")])
+
     def t_class_def(self):
         n = self.uid()
         w, t2 = self.wrong("int")
@@ -348,6 +383,7 @@ class G:
                   [("wrong_reassign", mut(3, "    self.x = %s" % w), (0, 11), "field int <- %s in constructor" % t2),
                    ("wrong_return", mut(6, "    return %s" % w), (0, 11), "method int <- %s" % t2),
                    ("unknown_field", mut(6, "    return self.nofield%d" % n), (0, 11), "self.nofield"),
+                   ("missing_return", mut(6, "    self.x = self.x + 0"), (0, 11), "method declared -> int reaches its end without a return"),
                    ("wrong_reassign", mut(9, "    self.x = %s" % w), (0, 11), "field int <- %s in method" % t2),
                    ("wrong_arg_type", mut(12, "kk%d = K%d(%s)" % (n, n, w)), (12, 12), "constructor arg int <- %s" % t2),
                    ("arg_count_less", mut(12, "kk%d = K%d()" % (n, n)), (12, 12), "constructor 1 -> 0"),
@@ -416,7 +452,7 @@ class G:
 
     TEMPLATES = ["t_decl_annot", "t_decl_alias", "t_decl_optional", "t_reassign", "t_call1", "t_call2", "t_mcall", "t_field",
                  "t_fn_ret", "t_fn_void", "t_cond_if", "t_cond_while", "t_cond_elseif", "t_index_list", "t_index_map", "t_binop",
-                 "t_unary", "t_map_value", "t_list_elem", "t_class_def", "t_opassign_fit", "t_fn_ret_shapes", "t_fixed_list"]
+                 "t_unary", "t_map_value", "t_list_elem", "t_class_def", "t_opassign_fit", "t_fn_ret_shapes", "t_fixed_list", "t_obj_field", "t_index_write"]
     CONTEXTS = ["top", "function", "closure", "method", "constructor", "if", "else_if", "else", "while", "from"]
 
     # ---------------------------------------------------------------- contexts
